@@ -25,8 +25,8 @@ ASSUMPTIONS = ['strings pandas parses leniently but that are outside the documen
                'times of day, D/M/Y) are not generated',
                'malformed means: denotes no calendar day under any reading, or a reversed range']
 EXHAUSTIVE = {'quick': False, 'thorough': False}
-MINIMA = {'quick': {'wellformed': 1500, 'malformed': 600, 'days_checked': 100000, 'distinct_nontrivial': 800},
-          'thorough': {'wellformed': 20000, 'malformed': 8000, 'days_checked': 2000000, 'distinct_nontrivial': 10000}}
+MINIMA = {'quick': {'returned_object_edits': 300, 'wellformed': 1500, 'malformed': 600, 'days_checked': 100000, 'distinct_nontrivial': 800},
+          'thorough': {'returned_object_edits': 4000, 'wellformed': 20000, 'malformed': 8000, 'days_checked': 2000000, 'distinct_nontrivial': 10000}}
 N = {'quick': 48, 'thorough': 320}
 PER = {'quick': 60, 'thorough': 120}
 
@@ -169,6 +169,29 @@ def run_case(spec):
       violations.append({'clause': 'extra-day', 'mech': 'days-extra', 'detail': '%s: not covered by any entry: %s' % (where[:200], sorted(map(str, gs - covered))[:4])})
     if covered - gs:
       violations.append({'clause': 'missing-day', 'mech': 'days-missing', 'detail': '%s: covered but missing: %s' % (where[:200], sorted(map(str, covered - gs))[:4])})
+    # a caller may edit what it got back (extend the window list, change a window, clear the day list):
+    # a later call with the same strings must not be affected
+    if entries and r.random() < 0.4:
+      w = util.call(utils.find_days_to_exclude, list(entries))
+      if w.ok and isinstance(w.value, list) and w.value:
+        try:
+          import pandas as pd  # pylint: disable=g-import-not-at-top
+          w.value.append(w.value[0])
+          w.value[0].first_day = w.value[0].first_day - pd.Timedelta(days=3)
+          del w.value[-1:]
+          w.value.append(type(w.value[0])(w.value[0].first_day - pd.Timedelta(days=40), w.value[0].first_day - pd.Timedelta(days=38)))
+          res.clear()
+        except Exception:  # pylint: disable=broad-except
+          pass
+        counters['returned_object_edits'] += 1
+        again = util.call(expand, utils, entries)
+        if not again.ok:
+          violations.append({'clause': 'purity', 'mech': 'days-state-leak', 'detail': '%s: second call after the caller edited the first result raised %s' % (where[:200], again.describe())})
+        else:
+          g3 = [to_date(ts)[0] for ts in again.value]
+          if set(g3) != covered or len(g3) != len(set(g3)):
+            violations.append({'clause': 'purity', 'mech': 'days-state-leak',
+                               'detail': '%s: after the caller edited the objects returned by an earlier call, the same strings expand to %d days instead of %d' % (where[:200], len(g3), len(covered))})
     # order / duplication independence
     perm = list(entries)
     r.shuffle(perm)
